@@ -78,7 +78,7 @@ where
     let hdr = opt_shape::<HDR>(&hs);
     let mut sb = [0u8; 80];
     put_g1(&mut sb, 0);
-    put_scalar(&mut sb, 48);
+    put_nonzero_scalar(&mut sb, 48);
     let sig = Signature::<BBSplus<CS>>::from_bytes(&sb).unwrap();
     // reference
     let api = rsuite::<CS>().api_id(false);
